@@ -34,7 +34,7 @@ import sys
 import time
 
 sys.path.insert(0, os.path.dirname(os.path.abspath(__file__)))
-from extract import ExtractError, extract_fn, extract_item, extract_closure_fn  # noqa: E402
+from extract import ExtractError, extract_fn, extract_item, extract_closure_fn, extract_loop_body_fn  # noqa: E402
 
 VERIF = os.path.dirname(os.path.dirname(os.path.abspath(__file__)))
 REPO = os.environ.get('VERIF_REPO', '/repo')
@@ -78,10 +78,11 @@ def assemble(tpl_path, repo=REPO, drop_lines=()):
             out.append('// extracted: %s %s  (%s:%d)' % (kv['kind'], kv['name'], kv['file'], info['lines'][0]))
             out.append(txt.rstrip())
             i += 1
-        elif st.startswith('//@@ fn ') or st.startswith('//@@ closurefn '):
+        elif st.startswith('//@@ fn ') or st.startswith('//@@ closurefn ') or st.startswith('//@@ loopbodyfn '):
             is_closure = st.startswith('//@@ closurefn ')
+            is_loopbody = st.startswith('//@@ loopbodyfn ')
             kv = parse_kv(st.split(' ', 2)[2])
-            spec = dict(file=kv['file'], impl=kv.get('impl', ''), fn=kv['name'], nth=kv.get('nth', 0), let=kv.get('let', ''), params=kv.get('params', ''),
+            spec = dict(file=kv['file'], impl=kv.get('impl', ''), fn=kv['name'], nth=kv.get('nth', 0), let=kv.get('let', ''), params=kv.get('params', ''), var=kv.get('var', ''),
                         rules=[r for r in kv.get('rules', '').split(',') if r], ret=kv.get('ret', 'r'),
                         loops={}, loop_tails={}, sig_sub=[], ghost_args=[], ghost_params=[], closures={}, derefs=[])
             section, buf = None, []
@@ -137,7 +138,7 @@ def assemble(tpl_path, repo=REPO, drop_lines=()):
                 i += 1
             else:
                 raise ExtractError('%s: fn block without //@@ end' % tpl_path)
-            txt, info = (extract_closure_fn(repo, spec) if is_closure else extract_fn(repo, spec))
+            txt, info = (extract_closure_fn(repo, spec) if is_closure else (extract_loop_body_fn(repo, spec) if is_loopbody else extract_fn(repo, spec)))
             info['has_contract'] = bool(spec.get('contract'))
             fns.append(info)
             out.append('    // extracted: %s :: %s :: %s  (lines %d-%d, sha256 %s, rules %s)' % (
